@@ -2486,6 +2486,14 @@ func ruleStrSlice(c *Ctx, r *Rep) {
 						return 0
 					}
 				case *ast.CallExpr:
+					// a string that contains (ends with) a constant is at least as long as the constant
+					if nm := calleeName(info, x); pos && (nm == "strings.Contains" || nm == "strings.HasSuffix") && len(x.Args) == 2 {
+						if types.ExprString(unparen(x.Args[0])) == T {
+							if s, ok := constString(info, x.Args[1]); ok {
+								return len(s)
+							}
+						}
+					}
 					if pos && calleeName(info, x) == "strings.HasPrefix" && len(x.Args) == 2 {
 						a := types.ExprString(unparen(x.Args[0]))
 						if a == T || a == T+".String()" || a == "string("+T+")" {
